@@ -98,6 +98,19 @@ func (lc *litCtx) goLit(x *Term, t types.Type) string {
 			return lc.typeStr(t) + "(nil)"
 		}
 		return lc.typeStr(t) + "{" + strings.Join(es, ", ") + "}"
+	case *types.Interface:
+		if ucs := unionCases[x.Sort]; ucs != nil && x.Op == "ctor" {
+			for _, uc := range ucs {
+				if uc.Ctor.Name == x.Name && len(x.Args) == 1 {
+					if _, isP := uc.Typ.(*types.Pointer); isP {
+						return lc.typeStr(t) + "(govcPtr(" + lc.goLit(x.Args[0], uc.Elem) + "))"
+					}
+					return lc.typeStr(t) + "(" + lc.goLit(x.Args[0], uc.Elem) + ")"
+				}
+			}
+		}
+		// nil, or an interface value the model leaves abstract
+		return lc.typeStr(t) + "(nil)"
 	case *types.Pointer:
 		if x.Op == "ctor" && strings.HasPrefix(x.Name, "nil:") {
 			return "(" + lc.typeStr(t) + ")(nil)"
@@ -279,6 +292,67 @@ func (p *Program) buildReplay(fn *ssa.Function, inputs []*Term, meta *ReplayMeta
 	return sb.String(), nil
 }
 
+// buildReplayPair: the function is called on two input vectors and the digests are compared.
+func (p *Program) buildReplayPair(fn *ssa.Function, a, b []*Term, pre *PreReplay, meta *ReplayMeta) (string, error) {
+	pkg := fn.Pkg.Pkg
+	lc := &litCtx{pkg: pkg, imports: map[string]string{"reflect": "reflect", "testing": "testing", "fmt": "fmt"}}
+	var decls []string
+	mkArgs := func(tag string, in []*Term) []string {
+		var args []string
+		for i, prm := range fn.Params {
+			name := fmt.Sprintf("%s%d", tag, i)
+			t := prm.Type()
+			if pt, ok := t.Underlying().(*types.Pointer); ok {
+				decls = append(decls, fmt.Sprintf("\t%s := %s", name, lc.goLit(in[i], pt.Elem())))
+				args = append(args, "&"+name)
+			} else {
+				decls = append(decls, fmt.Sprintf("\t%s := %s", name, lc.goLit(in[i], t)))
+				args = append(args, name)
+			}
+		}
+		return args
+	}
+	argsA, argsB := mkArgs("a", a), mkArgs("b", b)
+	if lc.err != nil {
+		return "", lc.err
+	}
+	call := func(args []string) string {
+		if fn.Signature.Recv() != nil {
+			return fmt.Sprintf("(%s).%s(%s)", args[0], fn.Name(), strings.Join(args[1:], ", "))
+		}
+		return fmt.Sprintf("%s(%s)", fn.Name(), strings.Join(args, ", "))
+	}
+	proj := func(r string) string {
+		if pre.Of == "" || pre.Of == "result" {
+			return r
+		}
+		return strings.Replace(pre.Of, "result", r, 1)
+	}
+	var sb strings.Builder
+	mj, _ := json.Marshal(meta)
+	fmt.Fprintf(&sb, "// Code generated by govc (counterexample replay of a preimage obligation). DO NOT EDIT.\n// GOVC-META %s\n\npackage %s\n\nimport (\n", mj, pkg.Name())
+	var ips []string
+	for path := range lc.imports {
+		ips = append(ips, path)
+	}
+	sort.Strings(ips)
+	for _, ip := range ips {
+		fmt.Fprintf(&sb, "\t%q\n", ip)
+	}
+	sb.WriteString(")\n")
+	sb.WriteString("\nfunc govcPtr[T any](v T) *T { return &v }\n")
+	sb.WriteString("\nfunc TestGovcReplay(t *testing.T) {\n")
+	sb.WriteString("\tdefer func() {\n\t\tif r := recover(); r != nil {\n\t\t\tfmt.Println(\"GOVC-PANIC\", r)\n\t\t}\n\t}()\n")
+	for _, d := range decls {
+		sb.WriteString(d + "\n")
+	}
+	fmt.Fprintf(&sb, "\tra := %s\n\trb := %s\n", call(argsA), call(argsB))
+	fmt.Fprintf(&sb, "\tif reflect.DeepEqual(%s, %s) {\n\t\tfmt.Println(\"GOVC-PRE SAME\")\n\t} else {\n\t\tfmt.Println(\"GOVC-PRE DIFF\")\n\t}\n", proj("ra"), proj("rb"))
+	fmt.Fprintf(&sb, "\tfmt.Printf(\"digest A %%x\\ndigest B %%x\\n\", %s, %s)\n", proj("ra"), proj("rb"))
+	sb.WriteString("}\n")
+	return sb.String(), nil
+}
+
 // runReplay executes a replay file against the repository through an overlay.
 func (p *Program) runReplay(file string, pkgDir string) (string, error) {
 	abs := filepath.Join(p.Repo, pkgDir, "zz_govc_replay_test.go")
@@ -362,6 +436,62 @@ func (p *Program) Replay(key string, o *Obligation, prop, outDir string) *Replay
 	pkgDir := strings.TrimPrefix(fn.Pkg.Pkg.Path(), modPath)
 	pkgDir = strings.TrimPrefix(pkgDir, "/")
 	meta := &ReplayMeta{Func: key, Obligation: o.Name, Property: prop, PkgDir: pkgDir, Model: o.Model, Inputs: inputStr}
+	if o.Pre != nil {
+		// second input vector
+		var inputsB []*Term
+		for i, prm := range fn.Params {
+			t := prm.Type()
+			if pt, ok := t.Underlying().(*types.Pointer); ok {
+				t = pt.Elem()
+			}
+			mv, ok := vals[strings.Trim(quoteSym("pre!B!"+prm.Name()), "|")]
+			if !ok {
+				inputsB = append(inputsB, inputs[i])
+				continue
+			}
+			tm, err := termFromModel(mv, t)
+			if err != nil {
+				out.Detail = "second input " + prm.Name() + ": " + err.Error()
+				return out
+			}
+			inputsB = append(inputsB, tm)
+			meta.Inputs = append(meta.Inputs, prm.Name()+"' = "+tm.String())
+		}
+		src, err := p.buildReplayPair(fn, inputs, inputsB, o.Pre, meta)
+		if err != nil {
+			out.Detail = "cannot build replay: " + err.Error()
+			return out
+		}
+		os.MkdirAll(outDir, 0o755)
+		file := filepath.Join(outDir, sanitize(o.Name)+"_test.go")
+		os.WriteFile(file, []byte(src), 0o644)
+		out.File = file
+		res, _ := p.runReplay(file, pkgDir)
+		switch {
+		case strings.Contains(res, "GOVC-PANIC"):
+			out.Ran = true
+			out.Detail = "replay panicked: " + firstLines(res, 4)
+		case strings.Contains(res, "GOVC-PRE SAME"):
+			out.Ran = true
+			if o.Pre.Kind == "covers" {
+				out.Reproduced = true
+				out.Detail = "two inputs that differ in the covered field give the same digest on the real code"
+			} else {
+				out.Detail = "digests equal (the candidate model is spurious)"
+			}
+		case strings.Contains(res, "GOVC-PRE DIFF"):
+			out.Ran = true
+			if o.Pre.Kind == "excludes" {
+				out.Reproduced = true
+				out.Detail = "changing only the excluded location changes the digest on the real code"
+			} else {
+				out.Detail = "digests differ (the candidate model is spurious)"
+			}
+		default:
+			out.Detail = "replay did not run: " + firstLines(res, 12)
+		}
+		return out
+	}
 	src, err := p.buildReplay(fn, inputs, meta)
 	if err != nil {
 		out.Detail = "cannot build replay: " + err.Error()
